@@ -62,9 +62,7 @@ steps:
 }
 
 func (e *agentEnv) cleanup() {
-	if d, err := dag.LoadMetadata(e.file); err == nil {
-		os.Remove(d.SockAddr())
-	}
+	removeSockLock(e.file)
 	os.RemoveAll(e.base)
 }
 
